@@ -299,6 +299,10 @@ func c15Aliases(ctx *core.Ctx, idx int, res *core.Result) {
 		{"", []string{"abslink/../../real/sub/x.go"}, []string{"real/sub/x.go"}},
 		{"link", []string{"sub/../top.go", "sub/.."}, []string{"real/sub/x.go", "real/sub/y.go", "real/top.go"}},
 		{"", []string{"real/sub/../top.go", "./real/../top.go"}, []string{"real/top.go", "top.go"}},
+		// a link that is the last element of an argument is not followed, however the argument is spelled
+		{"", []string{"real/../link/"}, nil},
+		{"", []string{"real/../link", "real/../abslink/."}, nil},
+		{"", []string{"real/../link/sub/x.go"}, []string{"real/sub/x.go"}},
 	}
 	v := vs[r.Intn(len(vs))]
 	var env []string
